@@ -78,3 +78,32 @@ PROPS["C18"] = dict(
         assumptions=["relative tolerance 1e-12 on factors", "base-unit list transcribed from src/util/util.cpp and validated by isSIUnit"],
     ),
 )
+
+_E1_ASSUME = ["HDF5 1.10.8 is trusted", "the observer sees the file only through public getters (DESIGN 3.3)",
+              "ids are compared raw inside one trace and symbolically (#k) for state de-duplication"]
+
+PROPS["C02"] = dict(
+    level="model_checking",
+    budget_s=dict(quick=150, thorough=1200),
+    parts=[dict(name="histories", bin="C02", flavour="plain", resume_mode="skip", max_crashes=3)],
+    extra_bins=["obsdump"],
+    manifest=dict(
+        engine="E1", design_ref="5 / C02",
+        technique="explicit-state BFS over API operation histories on the real library; differential oracle: observation before close == after reopen RO == RW == other process",
+        text="Breadth-first exploration of operation histories over the entity-graph alphabet (about 90 operation instances at level 1, 190 at "
+             "level 2, plus REOPEN) from the empty file (depth 4 quick / 5 thorough) and from two rich seed files (depth 1 / 2), de-duplicated "
+             "by the canonical observation. On every transition the full observation (all entities, attributes, links, descriptors, data, "
+             "creation times, lookup agreement) taken in the writing session is compared with the one after close+reopen ReadOnly, ReadWrite and, "
+             "for every new state, with the one a separate process (fork+exec) makes. States carry a fresh/same-session flag so histories with and "
+             "without intermediate reopen are both covered.",
+        note="No reference model is needed: the oracle is differential. updated_at is not part of the statement and is excluded. Bounded by depth and "
+             "by the name pools of the alphabet (DESIGN appendix A)."),
+    evidence=dict(
+        keys=dict(states=("distinct", "states"), transitions=("count", "transitions"), traces_validated_against_impl=("count", "traces"),
+                  evaluations=("count", "observations_compared"), distinct_nontrivial=("distinct", "nontrivial")),
+        rule="BFS over histories; a transition = one enabled, accepted operation applied to a state re-materialised from its seed file; "
+             "distinct_nontrivial = distinct (state before -> state after) pairs whose observation changed.",
+        bound=dict(quick="empty seed: level-1 alphabet depth 4; seeds R1,R2: full alphabet depth 1", thorough="empty seed: level-1 alphabet depth 5; seeds R1,R2: full alphabet depth 2"),
+        assumptions=_E1_ASSUME,
+    ),
+)
